@@ -642,8 +642,41 @@ def t_large(task, ctx: Ctx):
                             ctx.violation("no-raise", f"C02/op-raises/{op2[0]}-large/{exc_site(e)}", {"expr": ("u", op2, hist)}, repr(e))
 
 
+def t_iterables(task, ctx: Ctx):
+    """CanvasCombine / CanvasJoin take any iterable: a generator, iter(list) or reversed(list) gives the same canvas as the list"""
+    env.reset("utf-8")
+    names = ["ab", "two2", "wide2", "attr", "tall3"]
+    for a, b in itertools.product(names, repeat=2):
+        for kind in ("combine", "join"):
+            for how in ("list", "iter", "generator", "reversed", "tuple"):
+                ctx.count("evaluations")
+                va, vb = build(("leaf", a)), build(("leaf", b))
+                hist = ("iterable", kind, how, a, b)
+                try:
+                    if kind == "combine":
+                        w = max(va.g.ncols(), vb.g.ncols())
+                        items = []
+                        for v in (va, vb):
+                            c = CompositeCanvas(v.canv)
+                            c.pad_trim_left_right(0, w - v.g.ncols())
+                            items.append((c, None, False))
+                        arg = {"list": items, "iter": iter(items), "generator": (x for x in items), "reversed": reversed(items[::-1]), "tuple": tuple(items)}[how]
+                        got = G.grid_of_content(CanvasCombine(arg).content())
+                        want = G.grid_of_content(CanvasCombine(list(items)).content()) if how != "list" else None
+                    else:
+                        items = [(va.canv, None, False, va.g.ncols()), (vb.canv, None, False, vb.g.ncols())]
+                        arg = {"list": items, "iter": iter(items), "generator": (x for x in items), "reversed": reversed(items[::-1]), "tuple": tuple(items)}[how]
+                        got = G.grid_of_content(CanvasJoin(arg).content())
+                        want = G.grid_of_content(CanvasJoin(list(items)).content()) if how != "list" else None
+                except Exception as e:
+                    ctx.violation("no-raise", f"C02/op-raises/{kind}-{how}/{exc_site(e)}", {"expr": hist}, repr(e))
+                    continue
+                if want is not None and got != want:
+                    ctx.violation("cells", f"C02/cells/{kind}-{how}", {"expr": hist}, f"{kind} of a {how}: {got}; of the list: {want}")
+
+
 def dispatch(task, ctx: Ctx):
-    return {"l1": t_level1, "l2": t_level2, "l3": t_level3, "ops": t_operands, "delta": t_delta, "large": t_large}[task[0]](task, ctx)
+    return {"l1": t_level1, "l2": t_level2, "l3": t_level3, "ops": t_operands, "delta": t_delta, "large": t_large, "iterables": t_iterables}[task[0]](task, ctx)
 
 
 def chunks(lst, n):
@@ -675,6 +708,7 @@ def run(tier, R):
         for i in range(8):
             tasks.append(("delta", ds, i, 8))
     tasks.append(("large",))
+    tasks.append(("iterables",))
     R.run_tasks(dispatch, tasks)
     ev = int(R.ctx.counts["evaluations"])
     cov = {
